@@ -51,9 +51,12 @@ func (fs *FS) Mkdir(name string, perm hackpadfs.FileMode) error {
 		return err
 	}
 	if name != "." {
-		_, err := fs.Stat(path.Dir(name))
+		parentInfo, err := fs.Stat(path.Dir(name))
 		if err != nil {
 			return fs.wrapperErr("mkdir", name, err)
+		}
+		if !parentInfo.IsDir() {
+			return fs.wrapperErr("mkdir", name, hackpadfs.ErrNotDir)
 		}
 	}
 	return fs.wrapperErr("mkdir", name, file.save())
@@ -208,6 +211,9 @@ func (fs *FS) OpenFile(name string, flag int, perm hackpadfs.FileMode) (afFile h
 		err := errs[1]
 		if err != nil {
 			return nil, fs.wrapperErr("open", name, err)
+		}
+		if !files[1].info().IsDir() {
+			return nil, fs.wrapperErr("open", name, hackpadfs.ErrNotDir)
 		}
 		storeFile = fs.newFile(name, flag, perm&hackpadfs.ModePerm)
 		if err := storeFile.save(); err != nil {
